@@ -37,6 +37,7 @@
 #include <stdio.h>
 #include <stdlib.h>
 #include <string.h>
+#include <sys/uio.h>
 #include <time.h>
 
 
@@ -182,6 +183,76 @@ int snoopy_util_file_getSmallTextFileContent (char const * const filePath, char 
 
 
 /*
+ * Signal shield for writes made on behalf of the calling program
+ *
+ * Description:
+ *     A write can raise a signal in the writer: SIGPIPE when the reader of a
+ *     pipe or socket is gone, SIGXFSZ when a file has reached the file size
+ *     limit (ulimit -f) of the process. The calling program must not be killed
+ *     just because its exec() is being logged, therefore these two signals are
+ *     blocked around the write, and if the write has raised one, it is consumed
+ *     (the write itself reports EPIPE or EFBIG). A signal that was already
+ *     pending beforehand is left alone.
+ */
+static void snoopy_util_file_signalShield_enter (sigset_t * const shieldSet, sigset_t * const pendingBefore, sigset_t * const callerSigMask)
+{
+    sigemptyset(shieldSet);
+    sigaddset(shieldSet, SIGPIPE);
+    sigaddset(shieldSet, SIGXFSZ);
+    sigpending(pendingBefore);
+    sigprocmask(SIG_BLOCK, shieldSet, callerSigMask);
+}
+
+static void snoopy_util_file_signalShield_leave (sigset_t const * const pendingBefore, sigset_t const * const callerSigMask)
+{
+    static const int shieldedSignals[] = { SIGPIPE, SIGXFSZ };
+    struct timespec  noWait = {0, 0};
+    sigset_t         pendingNow;
+    sigset_t         raisedByUs;
+    size_t           i;
+
+    sigpending(&pendingNow);
+    for (i = 0; i < sizeof(shieldedSignals)/sizeof(shieldedSignals[0]); i++) {
+        if (sigismember(&pendingNow, shieldedSignals[i]) && !sigismember(pendingBefore, shieldedSignals[i])) {
+            sigemptyset(&raisedByUs);
+            sigaddset(&raisedByUs, shieldedSignals[i]);
+            sigtimedwait(&raisedByUs, NULL, &noWait);
+        }
+    }
+    sigprocmask(SIG_SETMASK, callerSigMask, NULL);
+}
+
+
+
+/*
+ * writev() that cannot raise SIGPIPE or SIGXFSZ in the calling program
+ *
+ * Params:
+ *     fd, iov, iovcnt:   As for writev()
+ *
+ * Return:
+ *     ssize_t:           As for writev()
+ */
+ssize_t snoopy_util_file_writevNoSignal (int fd, struct iovec const * const iov, int iovcnt)
+{
+    sigset_t shieldSet;
+    sigset_t pendingBefore;
+    sigset_t callerSigMask;
+    ssize_t  charCount;
+    int      writevErrno;
+
+    snoopy_util_file_signalShield_enter(&shieldSet, &pendingBefore, &callerSigMask);
+    charCount   = writev(fd, iov, iovcnt);
+    writevErrno = errno;
+    snoopy_util_file_signalShield_leave(&pendingBefore, &callerSigMask);
+    errno = writevErrno;
+
+    return charCount;
+}
+
+
+
+/*
  * Writes a line to a stream that belongs to the calling program (stdout, stderr)
  *
  * Description:
@@ -189,7 +260,7 @@ int snoopy_util_file_getSmallTextFileContent (char const * const filePath, char 
  *     calling program must neither be stalled by a full pipe nor be killed by
  *     the SIGPIPE of a vanished reader just because its exec() is being logged,
  *     therefore the line is only written if there is room for it right now, and
- *     a SIGPIPE caused by the write is not let through.
+ *     a signal caused by the write is not let through.
  *
  * Params:
  *     stream:   Stream to write to
@@ -201,11 +272,9 @@ int snoopy_util_file_getSmallTextFileContent (char const * const filePath, char 
 int snoopy_util_file_writeLineToCallerStream (FILE * const stream, char const * const line)
 {
     struct pollfd   streamPollFd;
-    sigset_t        sigpipeSet;
-    sigset_t        pendingSet;
+    sigset_t        shieldSet;
+    sigset_t        pendingBefore;
     sigset_t        callerSigMask;
-    struct timespec noWait = {0, 0};
-    int             sigpipeWasPending;
     int             charCount;
 
     // Is anybody (still) there, and is there room right now?
@@ -224,25 +293,15 @@ int snoopy_util_file_writeLineToCallerStream (FILE * const stream, char const * 
         return -1;
     }
 
-    // The reader may still vanish before we write - keep the resulting SIGPIPE away from the calling program
-    sigemptyset(&sigpipeSet);
-    sigaddset(&sigpipeSet, SIGPIPE);
-    sigpending(&pendingSet);
-    sigpipeWasPending = sigismember(&pendingSet, SIGPIPE);
-    sigprocmask(SIG_BLOCK, &sigpipeSet, &callerSigMask);
+    // The reader may still vanish before we write - keep the resulting signal away from the calling program
+    snoopy_util_file_signalShield_enter(&shieldSet, &pendingBefore, &callerSigMask);
 
     charCount = fprintf(stream, "%s\n", line);
     if (0 != fflush(stream)) {
         charCount = -1;
     }
 
-    if (!sigpipeWasPending) {
-        sigpending(&pendingSet);
-        if (sigismember(&pendingSet, SIGPIPE)) {
-            sigtimedwait(&sigpipeSet, NULL, &noWait);
-        }
-    }
-    sigprocmask(SIG_SETMASK, &callerSigMask, NULL);
+    snoopy_util_file_signalShield_leave(&pendingBefore, &callerSigMask);
 
     return charCount;
 }
